@@ -100,9 +100,18 @@ def long_list_faults(ctx, L):
             ctx.count("long-integer-lists")
 
 
+def sweep_one(ctx, L, t, data, ok):
+    ref, obs = strict_pair(L, t, data)
+    ctx.case((t, None, False, data), not ok)
+    return report(ctx, ID, L, t, data, None, False, ref, obs, extra="primitive sweep")
+
+
 def run_shard(ctx):
     L = layout()
     ctx.run_plain(lambda: long_list_faults(ctx, L), "long-int-lists")
+    from .common import primitive_sweep
+
+    ctx.run_plain(lambda: primitive_sweep(ctx, L, lambda t, data, ok: sweep_one(ctx, L, t, data, ok)), "primitive-sweep")
     body = lambda ex: check_case(ctx, L, ex)  # noqa: E731
     q = ctx.quick()
     for name, strat, n in (
